@@ -39,16 +39,22 @@ def digitsLoop (max : Nat) : Nat → Bool → Nat → Bytes → Nat × Bool × N
       else digitsLoop max (acc * 10 + d) (ovf || decide (acc * 10 > max - d)) (n + 1) cs
     else (acc, ovf, n, c :: cs)
 
+/-- optional sign of `_M_extract_int`: `-` or `+` is consumed -/
+def splitSign (s : Bytes) : Bool × Bytes :=
+  match s with
+  | c :: t => if c.toNat == 45 then (true, t) else if c.toNat == 43 then (false, t) else (false, s)
+  | [] => (false, s)
+
+/-- `__max` of `_M_extract_int`: the largest magnitude accepted -/
+def extractMax (signed : Bool) (bits : Nat) (neg : Bool) : Nat :=
+  if signed then (if neg then 2 ^ (bits - 1) else 2 ^ (bits - 1) - 1) else 2 ^ bits - 1
+
 /-- `_M_extract_int<T>` for a `bits`-wide signed/unsigned `T`, input positioned after the sentry.
 Result: value stored, failbit, remaining input. -/
 def extractNum (signed : Bool) (bits : Nat) (s : Bytes) : Int × Bool × Bytes :=
-  let (neg, s1) : Bool × Bytes :=
-    match s with
-    | c :: t => if c.toNat == 45 then (true, t) else if c.toNat == 43 then (false, t) else (false, s)
-    | [] => (false, s)
-  let max : Nat :=
-    if signed then (if neg then 2 ^ (bits - 1) else 2 ^ (bits - 1) - 1) else 2 ^ bits - 1
-  match digitsLoop max 0 false 0 s1 with
+  let neg := (splitSign s).1
+  let max := extractMax signed bits neg
+  match digitsLoop max 0 false 0 (splitSign s).2 with
   | (acc, ovf, n, rest) =>
     if n == 0 then (0, true, rest)
     else if ovf then ((if signed && neg then - (2 ^ (bits - 1) : Nat) else (max : Int)), true, rest)
